@@ -313,6 +313,26 @@ def cli_matrix():
     inline = None
     if h(os.path.join(d, 'bad.rs')) != hb:
         inline = '--check --config emit_mode=files rewrote the file (exit %d)' % r.returncode
+    # --backup / make_backup must not turn a reporting mode into a writing one
+    for args in (['--check', '--backup'], ['--emit', 'stdout', '--backup'], ['--emit', 'json', '--config', 'make_backup=true']):
+        w('bad.rs', bad)
+        hb = h(os.path.join(d, 'bad.rs'))
+        r = run(args + ['bad.rs'])
+        if h(os.path.join(d, 'bad.rs')) != hb or os.path.exists(os.path.join(d, 'bad.bk')):
+            findings.append('%s rewrote the file or left a .bk' % ' '.join(args))
+            for x in ('bad.bk',):
+                if os.path.exists(os.path.join(d, x)):
+                    os.remove(os.path.join(d, x))
+        if args[0] == '--check' and r.returncode != 1:
+            findings.append('%s on an unformatted file exits %d' % (' '.join(args), r.returncode))
+    # a formatted file with a macro call whose arguments do not parse: plain rustfmt rewrites nothing, so --check must exit 0
+    mac = 'fn main() {\n    route!(GET "/users" => list_users);\n}\n'
+    w('mac.rs', mac)
+    r0 = run(['mac.rs'])
+    if open(os.path.join(d, 'mac.rs')).read() == mac:
+        r = run(['--check', 'mac.rs'])
+        if r.returncode != 0:
+            findings.append('--check exits %d on a file that plain rustfmt leaves untouched (macro with unparsable arguments)' % r.returncode)
     # files mode writes formatted text only when it differs
     w('good.rs', good)
     m0 = os.stat(os.path.join(d, 'good.rs')).st_mtime_ns
